@@ -95,7 +95,8 @@ def clist(xs):
 
 
 SER_STRINGS = ["gEndElement", "gEndPI", "gStartPI", "gXMLDecl_VersionInfo", "gXMLDecl_EncodingDecl", "gXMLDecl_SDDecl",
-               "gXMLDecl_separator", "gXMLDecl_endtag", "gStartCDATA", "gEndCDATA", "gStartComment", "gEndComment"]
+               "gXMLDecl_separator", "gXMLDecl_endtag", "gStartCDATA", "gEndCDATA", "gStartComment", "gEndComment",
+               "gStartDoctype", "gPublic", "gSystem"]
 
 
 def read_all():
